@@ -626,7 +626,7 @@ func genH264(c *Ctx, add func(caseT)) {
 	for v := 0; v < 256; v++ {
 		add(caseT{line: "c15 h264dec " + Hx([]byte{byte(v)}), kind: "h264dec", class: "short"})
 	}
-	n := c.Budget(3000, 40000)
+	n := c.Budget(3000, 30000)
 	for i := 0; i < n; i++ {
 		var b []byte
 		switch c.Rng.Intn(3) {
@@ -642,7 +642,7 @@ func genH264(c *Ctx, add func(caseT)) {
 		}
 		add(caseT{line: "c15 h264dec " + Hx(b), kind: "h264dec", class: "malformed"})
 	}
-	m := c.Budget(6000, 80000)
+	m := c.Budget(6000, 40000)
 	for i := 0; i < m; i++ {
 		wild := c.Rng.Chance(12)
 		line, class := genSps264(c.Rng, wild)
